@@ -7,6 +7,7 @@ store for ever, so "completed incoming/outgoing" is a sum over the same table).
 Core Lean only.
 -/
 import Irismod.Model.Htlc
+import Irismod.Spec.C03
 
 namespace Irismod.Spec.C04
 open Irismod Irismod.Sdk Irismod.Htlc
@@ -116,7 +117,7 @@ def supplyTrackB (s0 s : State) : Bool :=
 
 /-- the window update of one block, per asset of the (pre-state) params -/
 def windowB (pre : State) (t : Nat) (post : State) : Bool :=
-  pre.params.isEmpty ||
+  pre.params.isEmpty || !(noDupDenoms pre.params) ||
   (pre.params.all fun a0 =>
     match findAsset pre.params a0.denom with
     | some a =>
@@ -145,5 +146,31 @@ def tlDeltaB (pre : State) (op : Op) (accepted : Bool) (post : State) : Bool :=
   | _ =>
     (denomsOf post ++ denomsOf pre).all fun d =>
       (supOf post d).tlCurrent == (supOf pre d).tlCurrent && (supOf post d).elapsed == (supOf pre d).elapsed
+
+
+def isSetParams : Op → Bool
+  | .setParams _ _ => true
+  | _ => false
+
+/-- **the C04 monitor**: names of the clauses that fail on the step `pre --op--> post`; `s0` is the
+observation of the history's reset line (bank supply is tracked relative to it) -/
+def stepFails (s0 pre : State) (op : Op) (accepted panicked : Bool) (post : State) : List String :=
+  Spec.C03.liveFails op accepted panicked ++
+  (if escrowEqB post then [] else ["escrow-eq"]) ++
+  (match op with
+   | .create _ to _ _ _ _ _ => if accepted && to == escrow then ["escrow-as-recipient-accepted"] else []
+   | _ => []) ++
+  (if countersB post then [] else ["counters"]) ++
+  (if !(isSetParams op) && limitsB pre && !(limitsB post) then ["limits"] else []) ++
+  (if supplyTrackB s0 post then [] else ["bank-supply"]) ++
+  (if tlDeltaB pre op accepted post then [] else ["time-limited-delta"]) ++
+  (match op with
+   | .beginBlock _ t => if windowB pre t post then [] else ["window"]
+   | _ => []) ++
+  (if Spec.C03.progressOk pre op accepted post then [] else ["refund-failed"])
+
+/-- the clauses evaluated on the observation of a reset line -/
+def resetFails (s : State) : List String :=
+  if escrowEqB s && countersB s && limitsB s then [] else ["reset-state"]
 
 end Irismod.Spec.C04
